@@ -354,6 +354,11 @@ func (r *run) check(after string, optional map[int]bool) {
 	}
 	if !r.m.limit {
 		for h, ti := range want {
+			if _, ok := have[h]; !ok && after == "price" && r.m.local[ti.acct] {
+				r.violate("local-evicted", "a local sender's transaction was dropped by a price change",
+					fmt.Sprintf("%s; %s", ti, r.describe()))
+				return
+			}
 			if _, ok := have[h]; !ok {
 				r.violate("lost", "pool lost a transaction although no limit, price change, head change or timeout accounts for it",
 					fmt.Sprintf("after %s: %s; %s", after, ti, r.describe()))
